@@ -581,6 +581,12 @@ class LimitedStream(io.RawIOBase):
                 break
 
             out.extend(data)
+        else:
+            if self._limit_is_max:
+                # The maximum was reached before the end of the stream, there
+                # may be more data than allowed. Reading on is an error, like
+                # for any other read at the limit, rather than truncating.
+                self.on_exhausted()
 
         return bytes(out)
 
